@@ -353,12 +353,12 @@ OBLIGATIONS = [
        timeout=300, params=range(6), functions=["schemathesis.specs.openapi.checks._is_prefix_operation", "schemathesis.specs.openapi.checks.ResourcePath.get"],
        symbolic="two path templates out of 6 (same / different variable names, nested, singular spelling, other collection) and first identifier of each side out of 4 forms (7, '7', 8, '0'), second out of 2",
        bounds="6 x 6 templates x 4 x 4 x 2 x 2 identifier forms"),
-    Ob(fn="use_after_free_2", clause=_UAF, timeout={"quick": 90, "thorough": 300}, params={"quick": _PQ, "thorough": _PT}, param_names=_NAMES,
+    Ob(fn="use_after_free_2", clause=_UAF, timeout={"quick": 90, "thorough": 150}, params={"quick": _PQ, "thorough": _PT}, param_names=_NAMES,
        functions=_FUNCS, symbolic=_SYM, bounds=_BOUNDS["quick"], stubs=_ST, outside=_OUT),
-    Ob(fn="resource_availability_2", clause=_AVL, timeout={"quick": 90, "thorough": 300}, params={"quick": _PQ, "thorough": _PT},
+    Ob(fn="resource_availability_2", clause=_AVL, timeout={"quick": 90, "thorough": 150}, params={"quick": _PQ, "thorough": _PT},
        param_names=_NAMES, functions=_FUNCS, symbolic=_SYM + "; whether the link overrode the path parameters", bounds=_BOUNDS["quick"], stubs=_ST, outside=_OUT),
-    Ob(fn="use_after_free_3", clause=_UAF, tiers=("thorough",), timeout=1200, params=_PT, param_names=_NAMES,
+    Ob(fn="use_after_free_3", clause=_UAF, tiers=("thorough",), timeout=240, params=_PT, param_names=_NAMES,
        functions=_FUNCS, symbolic=_SYM, bounds=_BOUNDS["thorough"], stubs=_ST, outside=_OUT),
-    Ob(fn="resource_availability_3", clause=_AVL, tiers=("thorough",), timeout=1200, params=_PT, param_names=_NAMES,
+    Ob(fn="resource_availability_3", clause=_AVL, tiers=("thorough",), timeout=240, params=_PT, param_names=_NAMES,
        functions=_FUNCS, symbolic=_SYM + "; whether the link overrode the path parameters", bounds=_BOUNDS["thorough"], stubs=_ST, outside=_OUT),
 ]
